@@ -225,7 +225,7 @@ func runC18(r *Run) {
 			}
 			funcs := append([]*ssa.Function{f}, anonFuncsDeep(f)...)
 			for _, fn := range funcs {
-				for _, c := range callsMatching(fn, false, nameIs("builtin:append")) {
+				for _, c := range callsMatching(fn, false, func(n string) bool { return n == "builtin:append" || strings.HasPrefix(n, "slices.Delete") }) {
 					if !fromLoad(c.Common.Args[0]) && cellName(c.Common.Args[0]) == "" {
 						continue
 					}
@@ -619,6 +619,62 @@ func runC18(r *Run) {
 			ps := callsMatching(f, false, nameIs("(*sync.Pool).Put"))
 			r.check(len(rs) == 1 && len(ps) == 1 && precedes(rs[0].Instr, ps[0].Instr), rel+":reset-before-put", r.fpos(f), "Reset precedes Put", "an object can be put back into the pool without being reset")
 		}
+	})
+
+	r.rule("R10", "removing the current element of a forward index loop steps the index back, so the element that moved into the slot is examined too (E10)", func() {
+		n := 0
+		r.P.AllFuncs(cliPkg, func(f *ssa.Function) {
+			for _, c := range callsIn(f, false) {
+				var idx ssa.Value
+				switch {
+				case c.Name == "builtin:append" && len(c.Common.Args) == 2:
+					a, ok1 := c.Common.Args[0].(*ssa.Slice)
+					b, ok2 := c.Common.Args[1].(*ssa.Slice)
+					if !ok1 || !ok2 || a.High == nil || b.Low == nil || a.Low != nil || b.High != nil || !sameValue(a.X, b.X) {
+						continue
+					}
+					v, k := splitOffset(b.Low)
+					if k != 1 || v != a.High {
+						continue
+					}
+					idx = a.High
+				case strings.HasPrefix(c.Name, "slices.Delete") && len(c.Common.Args) == 3:
+					v, k := splitOffset(c.Common.Args[2])
+					if k != 1 || v != c.Common.Args[1] {
+						continue
+					}
+					idx = c.Common.Args[1]
+				default:
+					continue
+				}
+				ph, ok := idx.(*ssa.Phi)
+				if !ok {
+					continue // not a loop index (e.g. an index found by a search, followed by return/break)
+				}
+				// forward loop: some edge of the phi is (…)+1
+				var back ssa.Value
+				for _, e := range ph.Edges {
+					if bo, ok := e.(*ssa.BinOp); ok && bo.Op == token.ADD && isConstInt(bo.Y, 1) {
+						back = bo.X
+					}
+				}
+				if back == nil {
+					continue
+				}
+				// does the loop continue after the removal? (a removal followed by return/break needs no step back)
+				if _, hit := reach(pointAfter(c.Instr), func(in ssa.Instruction) bool { return in.Block() == ph.Block() }, nil, nil); hit == nil {
+					continue
+				}
+				n++
+				stepsBack := dependsOn(back, func(v ssa.Value) bool {
+					bo, ok := v.(*ssa.BinOp)
+					return ok && bo.Op == token.SUB && bo.X == ssa.Value(ph) && isConstInt(bo.Y, 1) && (dom(c.Block(), bo.Block()) || bo.Block() == c.Block())
+				}) != nil
+				r.check(stepsBack, fmt.Sprintf("%s:remove-at-index#%d:steps-back", short(f.String()), n), r.pos(c.Instr), "after the removal the index is decremented before the loop increments it",
+					"the element at index i is removed and the loop goes on to i+1: the element that moved into slot i is never examined — of two adjacent expired cookies the second stays in the jar and keeps being sent")
+			}
+		})
+		r.atLeast("in-loop removals", n, 1)
 	})
 }
 
